@@ -13,13 +13,18 @@ from unitgen import Raw, Prelude, Item, Rewrite, Fragment
 NAME = 'u_tmpl'
 PROPERTIES = ['C02', 'C04']
 CONTRACTS = 'u_tmpl.contracts'
-SHARED_CONTRACTS = ['u_fcontent.contracts', 'u_stack.contracts', 'u_aaa.contracts']
+SHARED_CONTRACTS = ['u_fcontent.contracts', 'u_stack.contracts', 'u_aaa.contracts', 'u_misa.contracts']
 RLIMIT = 100
 H = u_stack.H
 R = u_fcontent.R
 
 REWRITES = u_fcontent.REWRITES + [
-    Rewrite('R1-receiver', r'(fn \w+(?:<[^>]*>)?\(\s*)&self\b', r'\1&mut self', only=('TreeBuilder::to_raw_text_mode', 'TreeBuilder::parse_raw_data')),
+    Rewrite('R1-receiver', r'(fn \w+(?:<[^>]*>)?\(\s*)&self\b', r'\1&mut self', only=('TreeBuilder::to_raw_text_mode', 'TreeBuilder::parse_raw_data', 'TreeBuilder::handle_misnested_a_tags')),
+    # R36/R37: the adaptor chain of handle_misnested_a_tags through a model function (inbody.spec.rs); R13: Option::map with a mutating closure as a match
+    Rewrite('R36-fmtentry', r'self\s*\.active_formatting_end_to_marker\(\)\s*\.iter\(\)\s*\.find\(\|&\(_, n, _\)\| self\.html_elem_named\(n, local_name!\("a"\)\)\)\s*\.map\(\|\(_, n, _\)\| n\.clone\(\)\)',
+            'fmt_elem_named(&self.active_formatting.borrow(), local_name!("a"))', only=('TreeBuilder::handle_misnested_a_tags',), min_count=1),
+    Rewrite('R13-mapmut', r'self\.position_in_active_formatting\(&node\)\s*\.map\(\|index\| self\.active_formatting\.borrow_mut\(\)\.remove\(index\)\);',
+            'match self.position_in_active_formatting(&node) { Some(index) => { self.active_formatting.borrow_mut().remove(index); }, None => {} }', only=('TreeBuilder::handle_misnested_a_tags',), min_count=1),
     Rewrite('S-fragment-close', r'\}\s*\Z', '} }', only=('TreeBuilder::step__in_template',)),
     # R38: Option<Ref<Handle>> glue
 ]
@@ -40,7 +45,7 @@ def _assume(p):
 BASE = [q for q in (_assume(p) for p in u_fcontent.PARTS[:-1]) if q is not None]
 PARTS = BASE + [
     Prelude('inbody.spec.rs'),
-    tb('is_fragment'), tb('stop_parsing'), tb('to_raw_text_mode'), tb('parse_raw_data'),
+    tb('is_fragment'), tb('stop_parsing'), tb('to_raw_text_mode'), tb('parse_raw_data'), tb('handle_misnested_a_tags', mode='assume'),
     Fragment(R, 'step', 'TreeBuilder', r'InsertionMode::InTemplate => match token \{',
              'fn step__in_template(&mut self, token: Token) -> ProcessResult { match token', 'step__in_template', wrap='impl TreeBuilder'),
     Fragment(R, 'step', 'TreeBuilder', r'Token::Tag\(tag @ tag!\(</template>\)\) => \{',
